@@ -6,9 +6,9 @@
   (`ReportsSound`). Nothing is assumed about which chunks report.
 
   Theorems for the intended algorithm (`dev.statslessKeepsMinMax = false`) hold for EVERY table
-  (any number of files/row groups/chunks, any mix of reporting and silent chunks); the unchanged tree
-  runs with the switch on and is refuted by `C18_statsless_keeps_minmax_unsound` (finding C18-F1) and
-  `C18_ndv_range_overflow_panics` (finding C18-F2).
+  (any number of files/row groups/chunks, any mix of reporting and silent chunks); the tree before `fix:` 35af6bd
+  ran with the switches on (`Dev.preFix`) and is refuted by `C18_statsless_keeps_minmax_unsound` (finding C18-F1),
+  `C18_ndv_range_overflow_panics` (finding C18-F2) and `C18_unsigned_as_signed_unsound` (finding C18-F3).
 -/
 import IQE.Lemmas.StatsFold
 namespace IQE.Props.C18
@@ -18,7 +18,7 @@ open IQE.Engine.StatsFold
 def ReportsSound (c : Chunk) : Prop :=
   c.rows = c.values.length ∧
   (∀ k, c.nullCount = some k → k = nulls c.values) ∧
-  (∀ lo hi, c.minmax = some (lo, hi) → ∀ v, some v ∈ c.values → lo ≤ v ∧ v ≤ hi)
+  (∀ lo hi, c.eff {} = some (lo, hi) → ∀ v, some v ∈ c.values → lo ≤ v ∧ v ≤ hi)
 
 /-- every row group holds exactly one chunk of column `name`, as long as the row group -/
 def ColumnPresent (t : Table) (name : String) : Prop :=
@@ -86,7 +86,7 @@ theorem C18_nulls_exact_table (dev : Dev) (t : Table) (ts : TableStats) (h : sta
 
 /-- Min/max are sound bounds (column level, intended algorithm): whatever mix of reporting, silent,
     all-NULL and empty chunks, if min and max are published then every non-NULL value lies within. -/
-theorem C18_minmax_sound (dev : Dev) (hdev : dev.statslessKeepsMinMax = false) (cs : List Chunk)
+theorem C18_minmax_sound (dev : Dev) (hdev : dev.statslessKeepsMinMax = false) (hdev3 : dev.unsignedAsSigned = false) (cs : List Chunk)
     (hs : ∀ c ∈ cs, ReportsSound c) (total : Nat) (s : ColStats)
     (h : finishCol dev total (foldCol dev cs) = .ok s) (lo hi : Int) (hlo : s.min = some lo) (hhi : s.max = some hi) :
     ∀ v, some v ∈ cs.flatMap (·.values) → lo ≤ v ∧ v ≤ hi := by
@@ -101,10 +101,11 @@ theorem C18_minmax_sound (dev : Dev) (hdev : dev.statslessKeepsMinMax = false) (
   obtain ⟨c, hc, hvc⟩ := List.mem_flatMap.1 hv
   have hcov := fold_covers dev hdev cs {} hvoid c hc
   obtain ⟨hrows, hnc, hmm⟩ := hs c hc
-  cases hcm : c.minmax with
+  cases hcm : c.eff dev with
   | some p =>
     obtain ⟨l, u⟩ := p
     obtain ⟨m, M, h1, h2, h3, h4⟩ := hcov.1 l u hcm
+    rw [eff_eq dev hdev3] at hcm
     have e1 : m = lo := by
       have : (foldCol dev cs).min = some m := h1
       rw [← hmin, hlo] at this; injection this with this; exact this.symm
@@ -126,7 +127,7 @@ theorem C18_minmax_sound (dev : Dev) (hdev : dev.statslessKeepsMinMax = false) (
       exact absurd hvc (all_none_of_nulls_eq_length c.values (by omega) v)
 
 /-- Table level. -/
-theorem C18_minmax_sound_table (dev : Dev) (hdev : dev.statslessKeepsMinMax = false) (t : Table) (ts : TableStats)
+theorem C18_minmax_sound_table (dev : Dev) (hdev : dev.statslessKeepsMinMax = false) (hdev3 : dev.unsignedAsSigned = false) (t : Table) (ts : TableStats)
     (h : stats dev t = .ok ts) (name : String) (s : ColStats) (hm : (name, s) ∈ ts.cols)
     (hs : ∀ c ∈ chunksOf t name, ReportsSound c) (lo hi : Int) (hlo : s.min = some lo) (hhi : s.max = some hi) :
     ∀ v, some v ∈ valuesOf t name → lo ≤ v ∧ v ≤ hi := by
@@ -138,15 +139,15 @@ theorem C18_minmax_sound_table (dev : Dev) (hdev : dev.statslessKeepsMinMax = fa
     obtain ⟨n', _, heq⟩ := List.mem_map.1 hmem
     injection heq with h1 h2
     subst h1
-    exact C18_minmax_sound dev hdev _ hs _ s h2 lo hi hlo hhi
+    exact C18_minmax_sound dev hdev hdev3 _ hs _ s h2 lo hi hlo hhi
   · cases h
 
 /-- Not vacuous: when every chunk reports, the bounds are published and they are attained envelope
     bounds of the reports (`min` ≤ every reported lo, `max` ≥ every reported hi). -/
 theorem C18_minmax_published (dev : Dev) (c0 : Chunk) (cs : List Chunk)
-    (hall : ∀ c ∈ c0 :: cs, c.minmax.isSome) :
+    (hall : ∀ c ∈ c0 :: cs, (c.eff dev).isSome) :
     (foldCol dev (c0 :: cs)).void = false ∧ (foldCol dev (c0 :: cs)).min.isSome ∧ (foldCol dev (c0 :: cs)).max.isSome := by
-  have hv : ∀ (l : List Chunk) (a : Acc), (∀ c ∈ l, c.minmax.isSome) → (l.foldl (step dev) a).void = a.void := by
+  have hv : ∀ (l : List Chunk) (a : Acc), (∀ c ∈ l, (c.eff dev).isSome) → (l.foldl (step dev) a).void = a.void := by
     intro l
     induction l with
     | nil => intro a _; rfl
@@ -189,9 +190,9 @@ theorem C18_ndv_le_rows (dev : Dev) (nn : Nat) (b : Bool) (mn mx : Option Int) (
     100, 200, −5 publishes min 1 / max 3 although every report is true. -/
 theorem C18_statsless_keeps_minmax_unsound :
     ∃ (cs : List Chunk) (s : ColStats), (∀ c ∈ cs, ReportsSound c) ∧
-      finishCol Dev.current 6 (foldCol Dev.current cs) = .ok s ∧ s.min = some 1 ∧ s.max = some 3 ∧
+      finishCol Dev.preFix 6 (foldCol Dev.preFix cs) = .ok s ∧ s.min = some 1 ∧ s.max = some 3 ∧
       some (-5) ∈ cs.flatMap (·.values) := by
-  refine ⟨[⟨3, some 0, some (1, 3), [some 1, some 2, some 3]⟩, ⟨3, none, none, [some 100, some 200, some (-5)]⟩],
+  refine ⟨[⟨3, some 0, some (1, 3), [some 1, some 2, some 3], 0⟩, ⟨3, none, none, [some 100, some 200, some (-5)], 0⟩],
           ⟨some 1, some 3, none, some 3, true⟩, ?_, by decide, rfl, rfl, by decide⟩
   intro c hc
   simp only [List.mem_cons, List.not_mem_nil, or_false] at hc
@@ -199,26 +200,50 @@ theorem C18_statsless_keeps_minmax_unsound :
   · refine ⟨rfl, ?_, ?_⟩
     · intro k hk; injection hk with hk; subst hk; decide
     · intro lo hi h v hv
-      injection h with h; injection h with h1 h2; subst h1; subst h2
+      simp [Chunk.eff] at h
+      obtain ⟨h1, h2⟩ := h; subst h1; subst h2
       simp only [List.mem_cons, Option.some.injEq, List.not_mem_nil, or_false] at hv
       omega
   · refine ⟨rfl, ?_, ?_⟩
     · intro k hk; cases hk
-    · intro lo hi h; cases h
+    · intro lo hi h; simp [Chunk.eff] at h
 
 /-- NEGATION WITNESS (finding C18-F2): with `ndvRangeOverflow` on, a column that reports [−1, i64::MAX]
     makes `statistics()` panic (`max - min` overflows `i64`). -/
 theorem C18_ndv_range_overflow_panics :
-    ∃ t : Table, stats Dev.current t = .panic ∧ stats {} t ≠ .panic := by
-  refine ⟨[⟨2, [("k", ⟨2, some 0, some (-1, 9223372036854775807), [some (-1), some 9223372036854775807]⟩)]⟩], ?_, ?_⟩
+    ∃ t : Table, stats Dev.preFix t = .panic ∧ stats {} t ≠ .panic := by
+  refine ⟨[⟨2, [("k", ⟨2, some 0, some (-1, 9223372036854775807), [some (-1), some 9223372036854775807], 0⟩)]⟩], ?_, ?_⟩
   · decide
   · exact C18_stats_total {} rfl _
 
+/-- NEGATION WITNESS (finding C18-F3): a UInt32 chunk holding 0 and 4294967295 stores (0, 0xFFFFFFFF); read through the
+    signed arm it is published as min 0 / max −1 although the decoded report [0, 4294967295] is true. -/
+theorem C18_unsigned_as_signed_unsound :
+    ∃ (cs : List Chunk) (s : ColStats), (∀ c ∈ cs, ReportsSound c) ∧
+      finishCol Dev.preFix 2 (foldCol Dev.preFix cs) = .ok s ∧ s.min = some 0 ∧ s.max = some (-1) ∧
+      some 4294967295 ∈ cs.flatMap (·.values) ∧
+      (∃ s', finishCol {} 2 (foldCol {} cs) = .ok s' ∧ s'.min = some 0 ∧ s'.max = some 4294967295) := by
+  refine ⟨[⟨2, some 0, some (0, -1), [some 0, some 4294967295], 32⟩], ⟨some 0, some (-1), some 0, none, true⟩, ?_, by decide, rfl, rfl,
+          by decide, ⟨⟨some 0, some 4294967295, some 0, some 2, true⟩, by decide, rfl, rfl⟩⟩
+  intro c hc
+  simp only [List.mem_cons, List.not_mem_nil, or_false] at hc
+  subst hc
+  refine ⟨rfl, ?_, ?_⟩
+  · intro k hk; injection hk with hk; subst hk; decide
+  · intro lo hi h v hv
+    have he : (Chunk.eff {} ⟨2, some 0, some (0, -1), [some 0, some 4294967295], 32⟩) = some (0, 4294967295) := by decide
+    rw [he] at h
+    injection h with h; injection h with h1 h2; subst h1; subst h2
+    simp only [List.mem_cons, Option.some.injEq, List.not_mem_nil, or_false] at hv
+    omega
+
 -- non-vacuity: the intended algorithm on the F1 witness voids the bounds, and publishes them when every chunk reports
-example : (foldCol {} [⟨3, some 0, some (1, 3), [some 1, some 2, some 3]⟩, ⟨3, none, none, [some 100, some 200, some (-5)]⟩]).void = true := by decide
-example : finishCol {} 6 (foldCol {} [⟨3, some 0, some (1, 3), []⟩, ⟨3, some 1, some (-5, 200), []⟩])
+example : (foldCol {} [⟨3, some 0, some (1, 3), [some 1, some 2, some 3], 0⟩, ⟨3, none, none, [some 100, some 200, some (-5)], 0⟩]).void = true := by decide
+example : finishCol {} 6 (foldCol {} [⟨3, some 0, some (1, 3), [], 0⟩, ⟨3, some 1, some (-5, 200), [], 0⟩])
     = .ok ⟨some (-5), some 200, some 1, some 5, true⟩ := by decide
-example : finishCol {} 6 (foldCol {} [⟨3, some 0, some (1, 3), []⟩, ⟨3, some 3, none, []⟩])
+example : finishCol {} 6 (foldCol {} [⟨3, some 0, some (1, 3), [], 0⟩, ⟨3, some 3, none, [], 0⟩])
     = .ok ⟨some 1, some 3, some 3, some 3, true⟩ := by decide
+-- a UInt64 chunk whose maximum does not fit i64 counts as not reporting: the bounds are withheld
+example : (foldCol {} [⟨2, some 0, some (5, -1), [some 5, some 18446744073709551615], 64⟩]).void = true := by decide
 
 end IQE.Props.C18
